@@ -4,10 +4,12 @@
 
   Modelled code (read from /repo and the synced_collections dependency):
     signac/project.py  Project.__init__ (workspace creation), __len__/_job_dirs
-    signac/job.py      Job.init, _StatePointDict.save / load, Job.document
+    signac/job.py      Job.init, _StatePointDict.save / load, Job.document (getter and setter)
     signac/_utility.py _mkdir_p  (+ CPython os.makedirs(exist_ok=True): exists(parent), mkdir, isdir)
     synced_collections JSONCollection._load_from_resource (ENOENT => no data),
-                       _save_to_resource (temp file `._<uuid>_<name>` + os.replace)
+                       _save_to_resource (temp file `._<uuid>_<name>` + os.replace),
+                       SyncedDict.__setitem__ (_load_and_save), SyncedDict.reset (_update + _save,
+                       NO load: the whole-document assignment `job.doc = mapping`)
 
   A *step* is one file-system primitive as the schedule stepper (harness/sched.py) sees it:
   isdir / isfile / exists / mkdir / read (open+read) / openw / write / close / rename / listdir.
@@ -146,6 +148,7 @@ inductive Op (SP DV : Type) where
   | docSet (v : SP) (k : String) (x : DV)
   | docGet (v : SP)
   | len
+  | docAssign (v : SP) (d : Doc DV)     -- `job.doc = d`: ONE write, no load (see `docStart`)
 
 inductive ProjPc where
   | isdir1 | isdir2 | mkdir | isdir3
@@ -184,6 +187,7 @@ def firstPhase : Op SP DV → Phase SP DV
   | .docSet v _ _ => .lite v
   | .docGet v => .lite v
   | .len => .len
+  | .docAssign v _ => .lite v
 
 def startNext (st : AState SP DV) : AState SP DV :=
   match st.script with
@@ -209,13 +213,6 @@ def setKV (d : Doc DV) (k : String) (x : DV) : Doc DV :=
   | [] => [(k, x)]
   | (k', x') :: r => if k' = k then (k, x) :: r else (k', x') :: setKV r k x
 
-/-- the state point part of `init` is through: go on with the document or finish -/
-def afterInit (st : AState SP DV) (v : SP) : AState SP DV :=
-  match st.script with
-  | .docSet _ _ _ :: _ => st.goto (.dload v)
-  | .docGet _ :: _ => st.goto (.dload v)
-  | _ => finishOp st
-
 def errName : Errno → String
   | .enoent => "OSError(ENOENT)"
   | .eexist => "OSError(EEXIST)"
@@ -225,6 +222,24 @@ def errName : Errno → String
 
 section
 variable (hash : SP → JobId)
+
+/-- The job directory is known to exist (`Job.document` has run `init`): go on with the document.
+    `doc[k] = x` and `doc()` load the file first (`_load_and_save` / `_load`);
+    the whole-document assignment `job.doc = d` does NOT: `Job.document.setter` calls
+    `SyncedDict.reset(d)`, which is `_update(d)` on the (fresh, empty) in-memory dict followed by
+    `_save()` — no `_load()` — so the save of exactly `d` starts right away. -/
+def docStart (st : AState SP DV) (v : SP) : AState SP DV :=
+  match st.script with
+  | .docAssign _ d :: _ => st.goto (.save .openw (hash v) .doc (.docc d))
+  | _ => st.goto (.dload v)
+
+/-- the state point part of `init` is through: go on with the document or finish -/
+def afterInit (st : AState SP DV) (v : SP) : AState SP DV :=
+  match st.script with
+  | .docSet _ _ _ :: _ => st.goto (.dload v)
+  | .docGet _ :: _ => st.goto (.dload v)
+  | .docAssign _ d :: _ => st.goto (.save .openw (hash v) .doc (.docc d))
+  | _ => finishOp st
 
 /-- the primitive actor `a` is blocked on -/
 def next (a : Nat) (st : AState SP DV) : Option (Instr SP DV) :=
@@ -269,7 +284,7 @@ def resumeProj (st : AState SP DV) (n : ProjPc) (r : Res SP DV) : AState SP DV :
 def resumeIni (st : AState SP DV) (n : IniPc) (v : SP) (r : Res SP DV) : AState SP DV :=
   match n with
   | .load1 => match r with
-    | .data (.spc w) => if hash w = hash v then afterInit st v else st.goto (.ini .isdir v)
+    | .data (.spc w) => if hash w = hash v then afterInit hash st v else st.goto (.ini .isdir v)
     | _ => st.goto (.ini .isdir v)            -- missing / torn / foreign: no early exit
   | .isdir => match r with
     | .bool true => st.goto (.ini .isfile v)
@@ -289,7 +304,7 @@ def resumeIni (st : AState SP DV) (n : IniPc) (v : SP) (r : Res SP DV) : AState 
     | .bool true => st.goto (.ini .load2 v)           -- save-if-absent: nothing written
     | _ => st.goto (.save .openw (hash v) .sp (.spc v))
   | .load2 => match r with
-    | .data (.spc w) => if hash w = hash v then afterInit st v else st.fail "JobsCorruptedError"
+    | .data (.spc w) => if hash w = hash v then afterInit hash st v else st.fail "JobsCorruptedError"
     | _ => st.fail "JobsCorruptedError"
 
 def resumeSave (st : AState SP DV) (n : SavePc) (i : JobId) (k : Kind) (c : Content SP DV)
@@ -323,7 +338,7 @@ def resume (st : AState SP DV) (r : Res SP DV) : AState SP DV :=
   | .fin => st
   | .proj n => resumeProj st n r
   | .lite v => match r with
-    | .bool true => st.goto (.dload v)           -- directory exists: init is skipped entirely
+    | .bool true => docStart hash st v           -- directory exists: init is skipped entirely
     | _ => st.goto (.ini .load1 v)
   | .ini n v => resumeIni hash st n v r
   | .save n i k c => resumeSave st n i k c r
